@@ -50,6 +50,11 @@ def check(ctx):
     ctx.run(K, "run_case", rule="K: every kernel entry; non-trivial = all", space="K kernels")
     ctx.run(M, "run_case", rule="M: every slice step of every simulation", space="M steps")
     ctx.run(V, "run_case", rule="V: complete Fourier basis inside the band + seeded waves", space="V vacuum")
+    # H: ONE propagator object is used for a sequence of different band-limited waves of the same shape (all orders of 3 waves with
+    # different norms x in-place / out-of-place x forward then back): each must keep its own intensity and come back unchanged
+    Hc = [{"space": "H", "g": g, "e": 100e3, "dz": dz, "perm": list(pm), "in_place": ip} for g in (grids if q else range(len(GRIDS)))
+          for dz in (2.0,) for pm in itertools.permutations(range(3)) for ip in (False, True)]
+    ctx.run(Hc, "run_case", rule="H: one propagator object over all orders of 3 different waves, in place and out of place", space="H propagator reuse")
 
 
 def waves_on(g, e, array=None, tilt=(0.0, 0.0)):
@@ -65,7 +70,41 @@ def waves_on(g, e, array=None, tilt=(0.0, 0.0)):
 
 
 def run_case(c):
-    return {"K": run_K, "M": run_M, "V": run_V}[c["space"]](c)
+    return {"K": run_K, "M": run_M, "V": run_V, "H": run_H}[c["space"]](c)
+
+
+def run_H(c):
+    import abtem
+    from abtem.antialias import antialias_aperture
+    from abtem.multislice import FresnelPropagator
+    from mc.compare import rng
+
+    gpts, samp = GRIDS[c["g"]]
+    aa = np.asarray(antialias_aperture(gpts, samp, np))
+    r = rng("c04h", c["g"])
+    waves = []
+    for i in range(3):  # three band-limited waves with clearly different norms
+        F = (r.normal(size=gpts) + 1j * r.normal(size=gpts)) * (aa == 1.0)
+        waves.append(((0.5 + i) * np.fft.ifft2(F)).astype(np.complex64))
+    prop = FresnelPropagator()
+    viol, worst, tr = [], 0.0, 0
+    for k in c["perm"]:
+        x = waves[k]
+        i0 = float((np.abs(x.astype(np.complex128)) ** 2).sum())
+        w = abtem.Waves(x.copy(), energy=c["e"], sampling=samp)
+        fw = prop.propagate(w, c["dz"], in_place=c["in_place"])
+        i1 = float((np.abs(np.asarray(fw.array).astype(np.complex128)) ** 2).sum())
+        back = prop.propagate(fw, -c["dz"], in_place=c["in_place"])
+        tr += 2
+        e = abs(i1 / i0 - 1)
+        d = float(np.abs(np.asarray(back.array) - x).max()) / float(np.abs(x).max())
+        worst = max(worst, e / 1e-5, d / 2e-5)
+        if not e <= 1e-5:
+            viol.append({"key": "vacuum/intensity-changed/reused-propagator", "msg": "wave %d on a propagator used for waves %r before: intensity ratio %r (%s)" % (k, c["perm"][: c["perm"].index(k)], i1 / i0, c)})
+        if not d <= 2e-5:
+            viol.append({"key": "vacuum/not-reversible/reused-propagator", "msg": "wave %d on a propagator used for waves %r before: propagate(-dz) after propagate(dz) differs from the input by %.3g (%s)" % (
+                k, c["perm"][: c["perm"].index(k)], d, c)})
+    return {"viol": viol[:2], "obs": "reuse", "nt": True, "tr": tr, "ref": 3, "err": worst}
 
 
 def run_K(c):
